@@ -113,9 +113,51 @@ theorem attributes_noDoc (cfg : Cfg α) (c x : Item α) (hx : x ∈ attributes c
   · cases hx
   · cases hx
 
-/-- a step yields the document only as `descendant-or-self::node()` / `self::node()` of the document -/
-theorem stepNodes_doc (cfg : Cfg α) (ax : Axis) (t : NTest) (c x : Item α)
-    (hx : x ∈ stepNodes cfg ax t c) (hd : isDoc x = true) :
+theorem parentOf_noDoc (cfg : Cfg α) (hd : cfg.dummy = true) (rt c x : Item α)
+    (hx : parentOf cfg rt c = some x) : isDoc x = false := by
+  unfold parentOf at hx
+  cases hci : c.idx? with
+  | none => rw [hci] at hx; simp at hx
+  | some i =>
+    rw [hci] at hx
+    simp only at hx
+    cases hf : (rt :: descendants rt).find? (hasChildIdx cfg i) with
+    | none => rw [hf] at hx; simp at hx
+    | some p =>
+      rw [hf] at hx
+      simp only [hd, Bool.true_and] at hx
+      split at hx
+      · cases hx
+      · rename_i hnd
+        cases hx
+        cases x <;> simp_all [parentOf.isDocB, isDoc]
+
+theorem ancestorsOf_noDoc (cfg : Cfg α) (hd : cfg.dummy = true) (rt : Item α) :
+    ∀ (n : Nat) (c x : Item α), x ∈ ancestorsOf cfg rt n c → isDoc x = false
+  | 0, _, _, hx => by simp [ancestorsOf] at hx
+  | n + 1, c, x, hx => by
+    simp only [ancestorsOf] at hx
+    cases hp : parentOf cfg rt c with
+    | none => rw [hp] at hx; cases hx
+    | some p =>
+      rw [hp] at hx
+      simp only [List.mem_cons] at hx
+      rcases hx with rfl | hx
+      · exact parentOf_noDoc cfg hd rt c x hp
+      · exact ancestorsOf_noDoc cfg hd rt n p x hx
+
+theorem siblings_noDoc (cfg : Cfg α) (rt c x : Item α) (hx : x ∈ siblings cfg rt c) : isDoc x = false := by
+  unfold siblings at hx
+  split at hx
+  · cases hx
+  · cases hp : parentOf cfg rt c with
+    | none => rw [hp] at hx; cases hx
+    | some p => rw [hp] at hx; exact children_noDoc p x hx
+
+/-- under a dummy document a step yields the document only as `descendant-or-self::node()` /
+`self::node()` of the document (reverse axes stop at the root element) -/
+theorem stepNodes_doc (cfg : Cfg α) (hdm : cfg.dummy = true) (rt : Item α) (ax : Axis) (t : NTest) (c x : Item α)
+    (hx : x ∈ stepNodes cfg rt ax t c) (hd : isDoc x = true) :
     ((ax == .descOrSelf || ax == .self) && t == .node) = true ∧ isDoc c = true := by
   unfold stepNodes at hx
   split at hx
@@ -139,19 +181,58 @@ theorem stepNodes_doc (cfg : Cfg α) (ax : Axis) (t : NTest) (c x : Item α)
       rcases hm with rfl | hm
       · exact ⟨by decide, hd⟩
       · rw [descendants_noDoc c x hm] at hd; cases hd
+    | parent =>
+      simp only [axisNodes, Option.mem_toList] at hm
+      rw [parentOf_noDoc cfg hdm rt c x hm] at hd; cases hd
+    | ancestor =>
+      simp only [axisNodes] at hm
+      rw [ancestorsOf_noDoc cfg hdm rt _ c x hm] at hd; cases hd
+    | follSibling =>
+      simp only [axisNodes, List.mem_filter] at hm
+      rw [siblings_noDoc cfg rt c x hm.1] at hd; cases hd
+    | precSibling =>
+      simp only [axisNodes, List.mem_reverse, List.mem_filter] at hm
+      rw [siblings_noDoc cfg rt c x hm.1] at hd; cases hd
 
 def Cfg.withDrop (cfg : Cfg α) (b : Bool) : Cfg α := { cfg with dropRoot := b }
 
-theorem stepNodes_withDrop (cfg : Cfg α) (ax : Axis) (t : NTest) (c : Item α)
+theorem attributes_withDrop (cfg : Cfg α) (b : Bool) (c : Item α) :
+    attributes (cfg.withDrop b) c = attributes cfg c := by cases c <;> rfl
+
+theorem hasChildIdx_withDrop (cfg : Cfg α) (b : Bool) (i : Nat) :
+    hasChildIdx (cfg.withDrop b) i = hasChildIdx cfg i := by
+  funext p; simp [hasChildIdx, attributes_withDrop]
+
+theorem parentOf_withDrop (cfg : Cfg α) (b : Bool) (rt c : Item α) :
+    parentOf (cfg.withDrop b) rt c = parentOf cfg rt c := by
+  unfold parentOf
+  cases c.idx? with
+  | none => rfl
+  | some i => simp only [hasChildIdx_withDrop]; rfl
+
+theorem ancestorsOf_withDrop (cfg : Cfg α) (b : Bool) (rt : Item α) : ∀ (n : Nat) (c : Item α),
+    ancestorsOf (cfg.withDrop b) rt n c = ancestorsOf cfg rt n c
+  | 0, _ => rfl
+  | n + 1, c => by
+    simp only [ancestorsOf, parentOf_withDrop]
+    cases parentOf cfg rt c with
+    | none => rfl
+    | some p => simp [ancestorsOf_withDrop cfg b rt n p]
+
+theorem axisNodes_withDrop (cfg : Cfg α) (b : Bool) (rt : Item α) (ax : Axis) (c : Item α) :
+    axisNodes (cfg.withDrop b) rt ax c = axisNodes cfg rt ax c := by
+  cases ax <;> simp [axisNodes, attributes_withDrop, parentOf_withDrop, ancestorsOf_withDrop, siblings]
+
+theorem stepNodes_withDrop (cfg : Cfg α) (rt : Item α) (ax : Axis) (t : NTest) (c : Item α)
     (h : (ax == .child && t == .star && isDoc c) = false) :
-    stepNodes (cfg.withDrop true) ax t c = stepNodes (cfg.withDrop false) ax t c := by
-  unfold stepNodes Cfg.withDrop
-  simp only [Bool.true_and, Bool.false_and]
+    stepNodes (cfg.withDrop true) rt ax t c = stepNodes (cfg.withDrop false) rt ax t c := by
+  unfold stepNodes
+  rw [axisNodes_withDrop, axisNodes_withDrop]
+  simp only [Cfg.withDrop, Bool.true_and, Bool.false_and]
   rw [h]
-  rfl
 
 /-- **the typed-`*` branch is never taken on the document when `starAtDoc` is false** -/
-theorem eval_withDrop (cfg : Cfg α) (rt : Item α) (e : E) :
+theorem eval_withDrop (cfg : Cfg α) (hdm : cfg.dummy = true) (rt : Item α) (e : E) :
     ∀ (cd : Bool) (c : Item α) (pos size : Nat), (isDoc c = true → cd = true) →
       starAtDoc cd e = false →
       eval (cfg.withDrop true) rt e c pos size = eval (cfg.withDrop false) rt e c pos size ∧
@@ -174,12 +255,12 @@ theorem eval_withDrop (cfg : Cfg α) (rt : Item α) (e : E) :
     have hstep : ∀ c' ∈ (eval (cfg.withDrop false) rt p c pos size).1,
         (filterPos (fun it i n => (eval (cfg.withDrop true) rt q2 it i n).2)
           (filterPos (fun it i n => (eval (cfg.withDrop true) rt q1 it i n).2)
-            (stepNodes (cfg.withDrop true) ax t c'))) =
+            (stepNodes (cfg.withDrop true) rt ax t c'))) =
         (filterPos (fun it i n => (eval (cfg.withDrop false) rt q2 it i n).2)
           (filterPos (fun it i n => (eval (cfg.withDrop false) rt q1 it i n).2)
-            (stepNodes (cfg.withDrop false) ax t c'))) := by
+            (stepNodes (cfg.withDrop false) rt ax t c'))) := by
       intro c' hc'
-      have hsn : stepNodes (cfg.withDrop true) ax t c' = stepNodes (cfg.withDrop false) ax t c' := by
+      have hsn : stepNodes (cfg.withDrop true) rt ax t c' = stepNodes (cfg.withDrop false) rt ax t c' := by
         apply stepNodes_withDrop
         cases hdc : isDoc c' with
         | false => simp
@@ -188,16 +269,16 @@ theorem eval_withDrop (cfg : Cfg α) (rt : Item α) (e : E) :
           rw [this] at hstar
           simpa using hstar
       rw [hsn]
-      have hcd : ∀ x ∈ stepNodes (cfg.withDrop false) ax t c', isDoc x = true →
+      have hcd : ∀ x ∈ stepNodes (cfg.withDrop false) rt ax t c', isDoc x = true →
           (canDoc cd p && (ax == .descOrSelf || ax == .self) && t == .node) = true := by
         intro x hx hd
-        obtain ⟨h1, h2⟩ := stepNodes_doc _ ax t c' x hx hd
+        obtain ⟨h1, h2⟩ := stepNodes_doc _ (by simpa [Cfg.withDrop] using hdm) rt ax t c' x hx hd
         rw [hpd c' hc' h2]
         simpa [Bool.and_assoc] using h1
       have e1 : filterPos (fun it i n => (eval (cfg.withDrop true) rt q1 it i n).2)
-            (stepNodes (cfg.withDrop false) ax t c') =
+            (stepNodes (cfg.withDrop false) rt ax t c') =
           filterPos (fun it i n => (eval (cfg.withDrop false) rt q1 it i n).2)
-            (stepNodes (cfg.withDrop false) ax t c') := by
+            (stepNodes (cfg.withDrop false) rt ax t c') := by
         apply filterPos_congr
         intro x hx i n
         rw [(ih1 _ x i n (hcd x hx) hs1).1]
@@ -214,7 +295,7 @@ theorem eval_withDrop (cfg : Cfg α) (rt : Item α) (e : E) :
       simp only [List.mem_flatMap] at hx
       obtain ⟨c', hc', hx⟩ := hx
       have hx := filterPos_subset _ _ x (filterPos_subset _ _ x hx)
-      obtain ⟨h1, h2⟩ := stepNodes_doc _ ax t c' x hx hd
+      obtain ⟨h1, h2⟩ := stepNodes_doc _ (by simpa [Cfg.withDrop] using hdm) rt ax t c' x hx hd
       simp only [canDoc]
       rw [hpd c' hc' h2]
       simpa [Bool.and_assoc] using h1
